@@ -73,6 +73,11 @@ theorem step_histEq {s : St} (op : Op) (h : Inv s) (he : HistEq s) : HistEq (ste
   | peerfin => simp only [step]; split <;> exact he
   | dump => exact he
   | snoopBy k => exact he
+  | writeQ v d => exact (write_stores_prefix_image v d s h he).1
+  | closeQ => simp only [step]; split <;> first | exact he | exact viaFlush
+  | showSt => exact he
+  | react rs => exact he
+  | popReact => exact he
 
 /-- state form of `delivered_is_ordered_prefix_image`: after every run, the bytes accepted by send() followed by the ring
 contents are exactly the bytes ever stored, in the order they were stored - nothing duplicated, nothing reordered. -/
@@ -97,12 +102,14 @@ namespace NV.C14
 def writesOf : List Op → List (List Byte)
   | [] => []
   | .write _ d :: ops => d :: writesOf ops
+  | .writeQ _ d :: ops => d :: writesOf ops
   | _ :: ops => writesOf ops
 
 /-- for every write of a run: the state it started from, and its text -/
 def preStates : St → List Op → List (St × List Byte)
   | _, [] => []
   | s, .write v d :: ops => (s, d) :: preStates (step s (.write v d)).1 ops
+  | s, .writeQ v d :: ops => (s, d) :: preStates (step s (.writeQ v d)).1 ops
   | s, op :: ops => preStates (step s op).1 ops
 
 theorem preStates_texts (s : St) (ops : List Op) : (preStates s ops).map (·.2) = writesOf ops := by
@@ -171,8 +178,8 @@ theorem write_prefix_full (v : Bool) (d : List Byte) (s : St) (h : Inv s) (he : 
       · rw [if_neg h0]; exact h2
 
 /-- operations other than writes store nothing -/
-theorem step_histR_of_not_write {s : St} (h : Inv s) (op : Op) (hw : ∀ v d, op ≠ .write v d) :
-    (step s op).1.histR = s.histR := by
+theorem step_histR_of_not_write {s : St} (h : Inv s) (op : Op) (hw : ∀ v d, op ≠ .write v d)
+    (hq : ∀ v d, op ≠ .writeQ v d) : (step s op).1.histR = s.histR := by
   have viaFlush : (flushMsg s).1.histR = s.histR := (flushMsg_model h).1.histR
   cases op with
   | sendres rs => rfl
@@ -184,6 +191,11 @@ theorem step_histR_of_not_write {s : St} (h : Inv s) (op : Op) (hw : ∀ v d, op
   | peerfin => simp only [step]; split <;> rfl
   | dump => rfl
   | snoopBy k => rfl
+  | writeQ v d => exact absurd rfl (hq v d)
+  | closeQ => simp only [step]; split <;> first | rfl | exact viaFlush
+  | showSt => rfl
+  | react rs => rfl
+  | popReact => rfl
 
 /-- **`delivered_is_ordered_prefix_image`.**  For every send script and every list of operations there are per-write prefix
 lengths `ns` - one for each text written, each the whole text unless the connection was unusable or the ring was still
@@ -216,15 +228,27 @@ theorem delivered_is_ordered_prefix_image (script : List SendRes) (ops : List Op
           rw [e]
           have : (step s (.write v d)).1.histR = (addMessage v d s).1.histR := rfl
           rw [this, hn, List.append_assoc]
-      · have hnw : ∀ v d, op ≠ .write v d := fun v d h => hw ⟨v, d, h⟩
-        have hh := step_histR_of_not_write hgi.inv op hnw
-        have he' : HistEq (step s op).1 := step_histEq op hgi.inv he
-        obtain ⟨ns, f, e⟩ := ih _ _ a b he'
-        refine ⟨ns, ?_, ?_⟩
-        · cases op <;> first | exact f | exact absurd rfl (hnw _ _)
-        · simp only [runFrom]
-          rw [e, hh]
-          cases op <;> first | rfl | exact absurd rfl (hnw _ _)
+      · by_cases hwq : ∃ v d, op = .writeQ v d
+        · obtain ⟨v, d, rfl⟩ := hwq
+          have he' : HistEq (step s (.writeQ v d)).1 := (write_stores_prefix_image v d s hgi.inv he).1
+          obtain ⟨n, hc, hn⟩ := write_prefix_full v d s hgi.inv he
+          obtain ⟨ns, f, e⟩ := ih _ _ a b he'
+          refine ⟨n :: ns, ?_, ?_⟩
+          · simp only [preStates]; exact ForallTwo.cons hc f
+          · simp only [runFrom, preStates, List.zipWith_cons_cons, List.flatten_cons]
+            rw [e]
+            have : (step s (.writeQ v d)).1.histR = (addMessage v d s).1.histR := rfl
+            rw [this, hn, List.append_assoc]
+        · have hnw : ∀ v d, op ≠ .write v d := fun v d h => hw ⟨v, d, h⟩
+          have hnq : ∀ v d, op ≠ .writeQ v d := fun v d h => hwq ⟨v, d, h⟩
+          have hh := step_histR_of_not_write hgi.inv op hnw hnq
+          have he' : HistEq (step s op).1 := step_histEq op hgi.inv he
+          obtain ⟨ns, f, e⟩ := ih _ _ a b he'
+          refine ⟨ns, ?_, ?_⟩
+          · cases op <;> first | exact f | exact absurd rfl (hnw _ _) | exact absurd rfl (hnq _ _)
+          · simp only [runFrom]
+            rw [e, hh]
+            cases op <;> first | rfl | exact absurd rfl (hnw _ _) | exact absurd rfl (hnq _ _)
   obtain ⟨ns, f, e⟩ := key ops (St.init script console) {} (init_ginv script console) (init_rel script console) rfl
   refine ⟨ns, f, ?_⟩
   have hs := sent_then_ring_is_stored script ops console
